@@ -14,6 +14,7 @@ import collections
 import itertools as it
 import locale
 import re
+from decimal import Context, Decimal, ROUND_HALF_UP
 from enum import Enum
 from typing import Iterable, List
 
@@ -28,6 +29,7 @@ from pycel.lib.date_time import DateTimeFormatter
 from pycel.lib.function_helpers import excel_helper
 
 RE_MULTI_SPACE = re.compile(' +')
+DECIMAL_CONTEXT = Context(prec=400, rounding=ROUND_HALF_UP)
 
 
 class TextFormat:
@@ -298,7 +300,8 @@ class TextFormat:
             return ''.join(t.token for t in tokenized_format.tokens)
 
     def _number_converter(self, number_value, tokenized: Tokenized):
-        number_value *= 100 ** tokenized.percents
+        # round in decimal, half away from zero, the way excel displays numbers
+        number_value = Decimal(repr(float(number_value))) * 100 ** tokenized.percents
         number_format = ''.join(
             t.token for t in tokenized.tokens if t.type == self.TokenType.NUMBER)
         thousands = self.thousands_format if tokenized.thousands else ''
@@ -306,10 +309,13 @@ class TextFormat:
         if tokenized.decimal:
             left_num_format, right_num_format = number_format.split('.', 1)
             decimals = len(right_num_format)
-            left_side, right_side = f'{number_value:#{thousands}.{decimals}f}'.split('.')
+            number_value = number_value.quantize(
+                Decimal(1).scaleb(-decimals), context=DECIMAL_CONTEXT)
+            left_side, _, right_side = f'{number_value:{thousands}.{decimals}f}'.partition('.')
             right_side = right_side.rstrip('0')
         else:
-            left_side = f'{int(round(number_value, 0)):{thousands}}'
+            number_value = number_value.quantize(Decimal(1), context=DECIMAL_CONTEXT)
+            left_side = f'{int(number_value):{thousands}}'
             right_side = None
         left_side = left_side.lstrip('0')
 
